@@ -105,6 +105,9 @@ Section TVal.
   Definition tv_assign (t : tval) (v : V) : tval :=
     {| tv_new := true; tv_queued := Some v; tv_current := tv_current t |}.
   Definition tv_get (t : tval) : V := tv_current t.
+  (* a write through the reference returned by ref(): currentValue only (consumer side) *)
+  Definition tv_setref (t : tval) (v : V) : tval :=
+    {| tv_new := tv_new t; tv_queued := tv_queued t; tv_current := v |}.
   (* update(): None = it installed a queuedValue that was never assigned *)
   Definition tv_update (t : tval) : option (tval * bool) :=
     if tv_new t then
@@ -220,7 +223,7 @@ Section TVal.
 End TVal.
 
 Arguments tv_new {V}. Arguments tv_queued {V}. Arguments tv_current {V}.
-Arguments tv_make {V}. Arguments tv_assign {V}. Arguments tv_get {V}. Arguments tv_update {V}.
+Arguments tv_make {V}. Arguments tv_assign {V}. Arguments tv_get {V}. Arguments tv_update {V}. Arguments tv_setref {V}.
 Arguments PIdle {V}. Arguments PWriteQ {V}. Arguments PSetFlag {V}. Arguments PUnlock {V}.
 Arguments EvUpdate {V}. Arguments EvGet {V}.
 Arguments obj {V}. Arguments mutex {V}. Arguments p_pc {V}. Arguments p_rem {V}.
